@@ -678,6 +678,7 @@ PROPS["C13"] = dict(
             dict(_ca, harness="VerifHarness_C13_dryrun", reach=["dry-run"], validate=1),
             dict(_ca, harness="VerifHarness_C13_schema_apply", reach=["applied", "failed-none", "failed-tx"], validate=4),
             dict(_ca, harness="VerifHarness_C13_grow", reach=["grown-none", "grown-file"], validate=8, native_asserts=True),
+            dict(_ca, harness="VerifHarness_C13_alldirective", reach=["rejected"], validate=4),
             dict(_ca, harness="VerifHarness_C13_dryrun_witness", role="witness", key="C13-dry-run-writes"),
         ],
         "thorough": [
@@ -685,6 +686,7 @@ PROPS["C13"] = dict(
             dict(_ca, harness="VerifHarness_C13_dryrun", reach=["dry-run"], validate=3),
             dict(_ca, harness="VerifHarness_C13_schema_apply3", reach=["applied", "failed-none", "failed-tx"], validate=6),
             dict(_ca, harness="VerifHarness_C13_grow", reach=["grown-none", "grown-file"], validate=8, native_asserts=True),
+            dict(_ca, harness="VerifHarness_C13_alldirective", reach=["rejected"], validate=4),
             dict(_ca, harness="VerifHarness_C13_dryrun_witness", role="witness", key="C13-dry-run-writes"),
         ],
     },
@@ -692,7 +694,7 @@ PROPS["C13"] = dict(
         "quick": "directories of 1..2 files x 1..2 statements, --tx-mode {file, all, none}, per-file `atlas:txmode` directive {absent, none, file}, every position "
                  "of the failing statement, then fix-and-re-run; dry-run on a fresh database and on one with history, with and without --baseline; schema apply: applyChanges over 1..2 changes (AddTable "
                  "with 0..2 indexes, i.e. 1..3 statements each, planned by the real SQLite planner), tx mode {default, none}, every position of a failing statement; "
-                 "grow family: 2 files x 2 statements, modes none and file, the fix of the failed file also appends a statement, then one more run "
+                 "all-mode directive family: 1..3 files x 1..2 statements, one file carrying a (rejected) txmode directive; grow family: 2 files x 2 statements, modes none and file, the fix of the failed file also appends a statement, then one more run "
                  "(all 8 paths also executed on the real CLI + SQLite, where the real revision store - generated ent code the engine does not run - is exercised)",
         "thorough": "same with up to 3 files / 3 changes",
     },
